@@ -268,7 +268,10 @@ impl<'arena, 'input: 'arena> Lexer<'arena, 'input> {
             } else if c == b'\\' {
                 has_escape = true;
                 if buffer.is_empty() {
-                    buffer.reserve_exact(bytes.len());
+                    // The literal ends at the latest where its line ends: reserve for that
+                    // much, not for the whole rest of the source (which made the memory
+                    // needed by a file of escaped strings quadratic in its size).
+                    buffer.reserve_exact((self.pos - beg) + newline);
                     // SAFETY: beg..pos is valid UTF-8 because we only process valid string content
                     let string = unsafe { str::from_utf8_unchecked(&self.src[beg..pos]) };
                     buffer.push_str(string);
